@@ -1,8 +1,24 @@
 package vm
 
 import (
+	"math"
+
 	"github.com/elk-language/elk/value"
 )
+
+// Converts the `n` argument of `take` and `drop` to a Go int.
+// Counts that do not fit in a machine word are clamped:
+// every iterable is shorter than that, and the sign is preserved.
+func iterableCount(n value.Value) int {
+	if n.IsReference() {
+		if n.AsBigInt().ToGoBigInt().Sign() < 0 {
+			return math.MinInt
+		}
+		return math.MaxInt
+	}
+
+	return n.AsInt()
+}
 
 // Std::Iterable::FiniteBase
 func initIterableFiniteBase() {
@@ -462,14 +478,14 @@ func initIterableFiniteBase() {
 		"drop",
 		func(vm *Thread, args []value.Value) (returnVal value.Value, err value.Value) {
 			self := args[0]
-			count := args[1].AsInt()
+			count := iterableCount(args[1])
 
 			if count < 0 {
 				return value.Undefined, value.Ref(
 					value.Errorf(
 						value.OutOfRangeErrorClass,
-						"tried to drop a negative amount of values `%d` from an iterable",
-						count,
+						"tried to drop a negative amount of values `%s` from an iterable",
+						args[1].Inspect(),
 					),
 				)
 			}
@@ -536,14 +552,14 @@ func initIterableFiniteBase() {
 		"take",
 		func(vm *Thread, args []value.Value) (returnVal value.Value, err value.Value) {
 			self := args[0]
-			count := args[1].AsInt()
+			count := iterableCount(args[1])
 
 			if count < 0 {
 				return value.Undefined, value.Ref(
 					value.Errorf(
 						value.OutOfRangeErrorClass,
-						"tried to take a negative amount of values `%d` from an iterable",
-						count,
+						"tried to take a negative amount of values `%s` from an iterable",
+						args[1].Inspect(),
 					),
 				)
 			}
